@@ -164,6 +164,14 @@ class SigmaCollection:
             ):  # Included rules are already parsed, skip collection action processing
                 parsed_rules.append(rule)
                 rule.source = source
+            elif not isinstance(rule, dict):  # e.g. an empty YAML document or a plain value
+                exception = SigmaCollectionError(
+                    f"Document { i } is not a map and can't be a Sigma rule", source=source
+                )
+                if collect_errors:
+                    errors.append(exception)
+                else:
+                    raise exception
             else:
                 action = rule.get("action")
                 if action is None:  # no action defined
